@@ -225,9 +225,13 @@ def check_direct(rep, prog, m):
         rep.ob('R-IDX', '%s signature' % q, params[:2 * D + 1] == ns + G[:D] + ['phi'], 'parameters %s' % params, rel, fn.lineno, what='(sizes, grids, phi) in axis order')
         factors = {}
         hets = {}
+        pmfs = {}
         for n in ast.walk(fn):
             if isinstance(n, ast.Assign) and isinstance(n.targets[0], ast.Name) and n.targets[0].id.startswith('factor') and isinstance(n.value, ast.BinOp):
                 factors[n.targets[0].id] = n
+            if isinstance(n, ast.Assign) and isinstance(n.targets[0], ast.Name) and n.targets[0].id.startswith('factor') and isinstance(n.value, ast.Call) \
+                    and (dotted(n.value.func) or '').split('.')[-2:] == ['binom', 'pmf']:
+                pmfs[n.targets[0].id] = n
             if isinstance(n, ast.If) and 'het_ascertained ==' in ast.unparse(n.test):
                 hets[ast.unparse(n.test)] = n
         for a in range(D):
@@ -242,6 +246,13 @@ def check_direct(rep, prog, m):
                     lv = p.target.id
                     rng = ast.unparse(p.iter)
             ok = nd is not None and lv is not None and binom_factor_ok(nd.value, ns[a], lv, G[a]) and rng == 'range(0, %s + 1)' % ns[a]
+            if nd is None and fname in pmfs:
+                # the factor through scipy.stats.binom.pmf(k, n, p): the same number for 0 <= p <= 1, but nan outside that interval, and
+                # the grids of this package reach a rounding error beyond 0 and 1 (the semi-analytic path clamps them, this one does not)
+                rep.ob('R-ALG', '%s factor axis %d' % (q, a + 1), False,
+                       '%s: binom.pmf is nan for a frequency outside [0, 1]; grid end points may lie a rounding error outside, and the polynomial form comb(n,i) x^i (1-x)^(n-i) is defined there' % ast.unparse(pmfs[fname])[:70],
+                       rel, pmfs[fname].lineno, what='binomial sampling factor comb(n,i) g^i (1-g)^(n-i) with the size, index and grid of axis %d' % (a + 1))
+                continue
             rep.ob('R-ALG', '%s factor axis %d' % (q, a + 1), ok, ast.unparse(nd)[:90] if nd is not None else 'not found', rel, nd.lineno if nd is not None else fn.lineno,
                    what='binomial sampling factor comb(n,i) g^i (1-g)^(n-i) with the size, index and grid of axis %d' % (a + 1))
             ht = hets.get("het_ascertained == '%s'" % G[a])
